@@ -81,6 +81,9 @@ let md5 (b : M.n list) : M.n list =
 
 let split_on c s = if s = "-" || s = "" then [] else String.split_on_char c s
 
+let rec nat_of_int (i : int) : M.nat = if i <= 0 then M.O else M.S (nat_of_int (i - 1))
+let sched_of s = List.map (fun x -> z_of_int (int_of_string x)) (split_on ',' s)
+
 let pair_of s = match String.split_on_char ':' s with
   | [a; b] -> (bytes_of_hex (if a = "" then "-" else a), bytes_of_hex (if b = "" then "-" else b))
   | _ -> failwith ("bad pair " ^ s)
@@ -138,6 +141,7 @@ let parse_hop (f : string array) : M.hop =
       | _ -> failwith "bad part") (split_on ',' f.(6)))
   | "abort" -> M.HAbort (h 3, h 4, h 5)
   | "lsp" -> M.HListParts (h 3, h 4, h 5, z_of_int (int_of_string f.(6)), z_of_int (int_of_string f.(7)))
+  | "cput" -> M.HChunkedPut (h 3, h 4, h 5, sched_of f.(6), bool_of_field f.(7), z_of_int (int_of_string f.(8)), h 9)
   | "lsu" ->
     let d = if f.(5) = "-" then None else (match bytes_of_hex f.(5) with [c] -> Some c | _ -> failwith "multi-byte delimiter") in
     M.HListUploads (h 3, h 4, d, h 6, h 7, z_of_int (int_of_string f.(8)))
@@ -163,8 +167,9 @@ let hist lineno (f : string array) =
     ew_mode := 0;
     hist_cfg := parse_cfg f.(3);
     let pre = if Array.length f > 4 then List.map bytes_of_hex (split_on ',' f.(4)) else [] in
+    let fs = (String.length f.(2) >= 2 && (String.sub f.(2) 0 2 = "fs" || String.sub f.(2) 0 2 = "sf")) in
     hist_state := List.fold_left (fun hs b ->
-        { hs with M.hs_model = fst (M.create_bucket hs.M.hs_model b) }) M.hinit pre;
+        { hs with M.hs_model = fst (M.create_bucket hs.M.hs_model b) }) (M.hinit_fs fs) pre;
     walk_mode := 0; print_string "SKIP\n"
   | "E" -> print_string "SKIP\n"
   | "O" ->
@@ -203,6 +208,27 @@ let hist lineno (f : string array) =
     else Printf.printf "FAIL\t%d\tmodel=-\tspec=%s\n" lineno (String.concat "," strs)
   | k -> failwith ("hist: unknown line kind " ^ k)
 
+
+(* c12 RA stream sched eofw size payload ok got | CP stream sched eofw buf payload got | RM stream sched eofw size ok got *)
+let c12 lineno (f : string array) =
+  match f.(1) with
+  | "RA" ->
+    let stream = bytes_of_hex f.(2) and sched = sched_of f.(3) and eofw = bool_of_field f.(4) in
+    let size = z_of_int (int_of_string f.(5)) and payload = bytes_of_hex f.(6) in
+    let ok = bool_of_field f.(7) and got = bytes_of_hex f.(8) in
+    verdict lineno (M.c12_readall_model stream sched eofw size ok got) (M.c12_readall_spec payload size ok got)
+  | "CP" ->
+    let stream = bytes_of_hex f.(2) and sched = sched_of f.(3) and eofw = bool_of_field f.(4) in
+    let bs = z_of_int (int_of_string f.(5)) and payload = bytes_of_hex f.(6) and got = bytes_of_hex f.(7) in
+    verdict lineno (M.c12_copy_model stream sched eofw bs got) (M.c12_copy_spec payload got)
+  | "RM" ->
+    let stream = bytes_of_hex f.(2) and sched = sched_of f.(3) and eofw = bool_of_field f.(4) in
+    let size = z_of_int (int_of_string f.(5)) in
+    let ok = bool_of_field f.(6) and got = bytes_of_hex f.(7) in
+    let m = M.c12_readall_model stream sched eofw size ok got in
+    verdict lineno m (if bool_of_field f.(8) then [bytes_of_hex "6d616c666f726d65642d73747265616d2d6163636570746564"] else [])
+  | _ -> hist lineno f
+
 let () =
   let lineno = ref 0 in
   (try
@@ -213,6 +239,7 @@ let () =
       (match f.(0) with
        | "c11" -> c11 !lineno f
        | "c17" -> c17 !lineno f
+       | "c12" -> c12 !lineno f
        | "c01" | "c02" | "c03" | "c04" | "c05" | "c06" | "c08" | "c10" | "c13" | "c14" | "c15" -> hist !lineno f
        | "#" -> print_string "OK\n"
        | k -> failwith ("unknown case kind " ^ k))
